@@ -56,6 +56,20 @@ theorem other_password_does_not_verify (c : CipherId) (alg : Nat) (pw pw' salt :
     verify c alg salt seed (encrypt c (derive alg pw salt seed) n pt) pw' = false := by
   unfold verify; rw [other_password_does_not_unlock c alg pw pw' salt seed n pt h]; rfl
 
+/-- C10/1c.  The age cipher: only a recipient opens the pack. -/
+theorem age_other_identity_fails (n : Bytes) (rs : List Nat) (pt : Bytes) (i : Nat) (h : i ∉ rs) :
+    decryptAge i (encryptAge n rs pt) = none := by
+  unfold decryptAge encryptAge
+  simp [h]
+
+/-- Witness (KNOWN FINDING C10/age-nonce-field): for the age cipher the pack's nonce field is
+not bound to the ciphertext — whatever it is replaced by, the pack opens to the same plaintext.
+(C10 as stated demands that a modified nonce makes decryption fail; the plaintext returned is
+still the authentic one.) -/
+theorem age_pack_nonce_field_is_not_bound (n n' : Bytes) (rs : List Nat) (pt : Bytes) (i : Nat) :
+    decryptAge i { encryptAge n rs pt with nonceField := n' } = decryptAge i (encryptAge n rs pt) := by
+  rfl
+
 /-- the access point of a folder sealed under `pw` -/
 def folderAP (c : CipherId) (alg : Nat) (pw salt : Bytes) (seed : Option Bytes) (n : Nat) (pt : Bytes) : AccessPoint :=
   { cipher := c, alg := alg, salt := salt, seed := seed, sealedMeta := encrypt c (derive alg pw salt seed) n pt }
